@@ -415,7 +415,7 @@ func (s *State) evalPrintLogError(node *ast.Builtin) object.Object {
 	if doLog && (log.GetLogLevel() >= log.Error) {
 		return object.NULL
 	}
-	buf := strings.Builder{}
+	buf := object.GuardedBuilder{}
 	for i, v := range node.Parameters {
 		if i > 0 {
 			buf.WriteString(" ")
